@@ -53,6 +53,87 @@ class ProgObserver:
         self.PR.Program.get_prop_covered = self.o_gpc
 
 
+_GEN = {}
+
+
+def gen_project(at, dt):
+    """A generated model whose program set targets what no library model targets: non-transition function parameters that feed no
+    transition (one of data only, one of compartments), a non-transition data parameter, a number transition, through a continuous
+    and a one-off program, at any step size."""
+    import io
+
+    import sciris as sc
+    import xlsxwriter
+    from atomica.programs import Covout
+    from atomica.utils import TimeSeries
+
+    if "fw" not in _GEN:
+        f = io.BytesIO()
+        wb = xlsxwriter.Workbook(f)
+        wb.set_properties({"category": "atomica:framework"})
+
+        def sheet(name, rows):
+            ws = wb.add_worksheet(name)
+            for i, r in enumerate(rows):
+                for j, c in enumerate(r):
+                    if c is not None:
+                        ws.write(i, j, c)
+
+        sheet("Databook Pages", [["Datasheet Code Name", "Datasheet Title"], ["sv", "State"], ["pa", "Pars"]])
+        sheet("Compartments", [["Code Name", "Display Name", "Is Source", "Is Sink", "Is Junction", "Setup Weight", "Default Value", "Databook Page"],
+                               ["ca", "C a", "n", "n", "n", 1, 0, "sv"], ["cb", "C b", "n", "n", "n", 1, 0, "sv"], ["cd", "C d", "n", "y", "n", 0, None, None]])
+        names = ["ca", "cb", "cd"]
+        M = {a: {b: None for b in names} for a in names}
+        M["ca"]["cb"] = "r"
+        M["cb"]["ca"] = "n"
+        M["cb"]["cd"] = "m"
+        sheet("Transitions", [["Transition Matrix"] + names] + [[a] + [M[a][b] for b in names] for a in names])
+        sheet("Characteristics", [["Code Name", "Display Name", "Components", "Denominator", "Default Value", "Setup Weight", "Databook Page"], ["alive", "Ch alive", "ca, cb", None, 0, 0, None]])
+        sheet("Parameters", [["Code Name", "Display Name", "Format", "Timescale", "Default Value", "Minimum Value", "Maximum Value", "Function", "Databook Page", "Targetable"],
+                             ["base", "P base", None, None, 0.3, None, None, None, "pa", "n"],
+                             ["qual", "P qual", None, None, None, 0, 3, "2*base", None, "y"],
+                             ["share", "P share", None, None, None, None, None, "0.5*cb/max(alive,1)", None, "y"],
+                             ["dataout", "P dataout", None, None, 0.25, None, 0.9, None, "pa", "y"],
+                             ["r", "P r", "probability", 1, 0.1, 0, 1, None, "pa", "y"],
+                             ["n", "P n", "number", 1, 5, 0, None, None, "pa", "y"],
+                             ["m", "P m", "rate", 1, 0.2, 0, 1.5, None, "pa", "y"]])
+        sheet("Cascades", [["Cascade", "Constituents"], ["Alive", "alive"], ["B", "cb"]])
+        wb.close()
+        Fw = at.ProjectFramework(sc.Spreadsheet(f))
+        D = at.ProjectData.new(Fw, np.array([2000.0]), pops=sc.odict([("p0", "Pop 0"), ("p1", "Pop 1")]), transfers=0)
+        for pop, (a, b) in (("p0", (800.0, 200.0)), ("p1", (300.0, 30.0))):
+            for nme, v in (("ca", a), ("cb", b)):
+                ts = D.tdve[nme].ts[pop]
+                ts.t, ts.vals, ts.assumption = [], [], v
+        pg = at.ProgramSet.new(tvec=np.array([2000.0]), progs=sc.odict([("P1", "Prog 1"), ("P2", "Prog 2")]), framework=Fw, data=D)
+        p1, p2 = pg.programs["P1"], pg.programs["P2"]
+        p1.target_pops, p1.target_comps = ["p0"], ["ca"]
+        p1.spend_data = TimeSeries(assumption=300.0, units="$/year")
+        p1.unit_cost = TimeSeries(assumption=1.0, units="$/person/year")
+        p2.target_pops, p2.target_comps = ["p0", "p1"], ["cb"]
+        p2.spend_data = TimeSeries(assumption=90.0, units="$/year")
+        p2.unit_cost = TimeSeries(assumption=1.5, units="$/person (one-off)")
+        pg.covouts[("m", "p0")] = Covout("m", "p0", {"P1": 0.05}, baseline=0.3)
+        pg.covouts[("qual", "p0")] = Covout("qual", "p0", {"P1": 2.5, "P2": 4.0}, baseline=0.5)
+        pg.covouts[("share", "p0")] = Covout("share", "p0", {"P2": 0.75}, baseline=0.125)
+        pg.covouts[("share", "p1")] = Covout("share", "p1", {"P2": 0.5}, baseline=0.25)
+        pg.covouts[("dataout", "p0")] = Covout("dataout", "p0", {"P1": 1.5}, baseline=0.125)
+        pg.covouts[("n", "p0")] = Covout("n", "p0", {"P2": 0.5}, baseline=0.0)
+        pg.covouts[("r", "p0")] = Covout("r", "p0", {"P1": 0.5, "P2": 0.25}, baseline=0.0625)
+        _GEN["fw"] = (Fw, D, pg)
+    Fw, D, pg = _GEN["fw"]
+
+    class Shim:
+        def __init__(self):
+            self.settings = at.ProjectSettings(2000, 2012, dt)
+            self.framework = Fw
+
+        def run_sim(self, ps, pg_=None, ins=None, store_results=False):
+            return at.run_model(self.settings, Fw, ps, pg_, ins)
+
+    return Shim(), at.ParameterSet(Fw, sc.dcp(D)), sc.dcp(pg)
+
+
 def check_run(at, P, ps, pg, make_ins, label, records, index, rid, V):
     import sciris as sc
 
@@ -116,6 +197,13 @@ def check_run(at, P, ps, pg, make_ins, label, records, index, rid, V):
             records.append(dict(id=rid, kind="same", a=[FX.fix(min(c, 1.0))], b=[FX.fix(float(frac[prog][ti]))]))
             index[rid] = dict(label=label, what="reported coverage fraction vs coverage in force", prog=prog, ti=ti, in_force=c, reported=float(frac[prog][ti]))
             rid += 1
+            if prog in ins.coverage:
+                # the coverage prevailing in this step under an overwrite: min(1, c) for continuous programs, min(1, c * dt) for one-off ones
+                cyr = float(ins.coverage[prog].interpolate(np.array([m.t[ti]]), method="previous")[0])
+                one_off = m.progset.programs[prog].is_one_off
+                records.append(dict(id=rid, kind="cov", cov=FX.fix(c), cap=FX.fix(cyr * dt if one_off else cyr), elig=FX.fix(1.0)))
+                index[rid] = dict(label=label, what="coverage in force vs coverage overwrite in the instructions", prog=prog, ti=ti, in_force=c, per_year=cyr, one_off=bool(one_off), dt=dt)
+                rid += 1
             if prog in rec.get("cap", {}):
                 capv, eligv, covv = rec["cap"][prog]
                 one_off = m.progset.programs[prog].is_one_off
@@ -182,6 +270,21 @@ def run(prop, tier):
             if not thorough and name != "udt" and vname in ("budget change",):
                 continue
             label = dict(model=name, instructions=vname)
+            try:
+                rid, nact = check_run(at, P, ps, pg, mk, label, records, index, rid, V)
+                cov["runs"].append(dict(label=label, active_steps=nact))
+            except Exception as ex:
+                V.violation("C13 run with programs raised %s" % type(ex).__name__, dict(label=label, error=str(ex)[:300]))
+    for dt in ([0.25, 2.0] if not thorough else [0.25, 0.1, 1.0, 2.0, 1.0 / 12]):
+        P, ps, pg = gen_project(at, dt)
+        variants = {
+            "generated: spending": lambda: at.ProgramInstructions(start_year=2002.0, alloc=pg),
+            "generated: coverage overwrites above 1/year, off-grid start, stop year": lambda: at.ProgramInstructions(start_year=2001.0 + dt / 3, stop_year=2009.0 + dt / 2, alloc=pg,
+                                                                                                                  coverage={"P2": TimeSeries([2001.0, 2006.0], [2.0, 0.5]), "P1": 0.625}),
+            "generated: scalar capacity and zero spending": lambda: at.ProgramInstructions(start_year=2002.0, alloc={"P1": 0, "P2": TimeSeries([2002.0, 2007.0], [90.0, 600.0])}, capacity={"P1": 100.0}),
+        }
+        for vname, mk in variants.items():
+            label = dict(model="generated dt=%g" % dt, instructions=vname)
             try:
                 rid, nact = check_run(at, P, ps, pg, mk, label, records, index, rid, V)
                 cov["runs"].append(dict(label=label, active_steps=nact))
